@@ -10,6 +10,7 @@ CONSTANTS
   TypeOf <- MCTypeOf
   Classes = {"08", "0A", "11"}
   Eavesdrop = FALSE
+  FakeDevs <- MCFake3
   MaxClaims = 9
 SPECIFICATION Spec
 INVARIANT OnePlace
